@@ -327,3 +327,595 @@ Proof.
   - reflexivity.
   - intros r Hr. destruct r as [|[|]]; try lia; reflexivity.
 Qed.
+
+(** ** the order in which the nested parameters are listed (LRT_adjust / Wald_stat / score_stat)
+
+    Finite sums over 0..n-1, square matrices as lists of rows. *)
+Definition sumn (n : nat) (g : nat -> R) : R := nsum (map g (seq 0 n)).
+Definition wfm (n : nat) (M : list (list R)) : Prop := length M = n /\ Forall (fun r => length r = n) M.
+Notation ent := (@entry R NumR).
+
+Lemma nsum_map_ext {A} (g h : A -> R) l : (forall k, In k l -> g k = h k) -> nsum (map g l) = nsum (map h l).
+Proof. intros E. f_equal. apply map_ext_in, E. Qed.
+Lemma sumn_ext n g h : (forall k, (k < n)%nat -> g k = h k) -> sumn n g = sumn n h.
+Proof. intros E. apply nsum_map_ext. intros k Hk. apply in_seq in Hk. apply E. lia. Qed.
+Lemma nsum_map_plus {A} (g h : A -> R) l : nsum (map (fun k => g k + h k) l) = nsum (map g l) + nsum (map h l).
+Proof. induction l as [|a l IH]; cbn [map]; rewrite ?nsum_cons, ?nsum_nil; [ring|rewrite IH; ring]. Qed.
+Lemma nsum_map_scal_l {A} c (g : A -> R) l : c * nsum (map g l) = nsum (map (fun k => c * g k) l).
+Proof. induction l as [|a l IH]; cbn [map]; rewrite ?nsum_cons, ?nsum_nil; [ring|rewrite <- IH; ring]. Qed.
+Lemma nsum_map_scal_r {A} c (g : A -> R) l : nsum (map g l) * c = nsum (map (fun k => g k * c) l).
+Proof. induction l as [|a l IH]; cbn [map]; rewrite ?nsum_cons, ?nsum_nil; [ring|rewrite <- IH; ring]. Qed.
+Lemma nsum_swap {A B} (f : A -> B -> R) (L1 : list A) (L2 : list B) :
+  nsum (map (fun k => nsum (map (fun l => f k l) L2)) L1) = nsum (map (fun l => nsum (map (fun k => f k l) L1)) L2).
+Proof.
+  induction L1 as [|a L1 IH].
+  - cbn [map]. rewrite nsum_nil. symmetry. apply nsum_map_zero.
+  - cbn [map]. rewrite nsum_cons, IH.
+    rewrite <- nsum_map_plus. apply nsum_map_ext. intros l _. rewrite nsum_cons. reflexivity.
+Qed.
+
+Lemma nsum_delta_notin (g : nat -> R) j l : ~ In j l -> nsum (map (fun k => g k * dl k j) l) = 0.
+Proof.
+  induction l as [|a l IH]; intros Hn; cbn [map]; rewrite ?nsum_cons, ?nsum_nil; [reflexivity|].
+  rewrite IH by (intros Hc; apply Hn; right; assumption).
+  rewrite dl_diff by (intros ->; apply Hn; left; reflexivity). ring.
+Qed.
+Lemma nsum_delta_in (g : nat -> R) j l : NoDup l -> In j l -> nsum (map (fun k => g k * dl k j) l) = g j.
+Proof.
+  induction l as [|a l IH]; intros Hd Hi; [destruct Hi|].
+  inversion Hd as [|? ? Hna Hd']; subst. cbn [map]. rewrite nsum_cons.
+  destruct (Nat.eq_dec a j) as [->|Hne].
+  - rewrite nsum_delta_notin by assumption. rewrite dl_same. ring.
+  - rewrite IH; [|assumption|destruct Hi; [contradiction|assumption]]. rewrite dl_diff by assumption. ring.
+Qed.
+Lemma sumn_delta_r n (g : nat -> R) j : (j < n)%nat -> sumn n (fun k => g k * dl k j) = g j.
+Proof. intros Hj. apply nsum_delta_in; [apply seq_NoDup|apply in_seq; lia]. Qed.
+Lemma dl_sym a b : dl a b = dl b a.
+Proof. destruct (Nat.eq_dec a b) as [->|Hn]; [reflexivity|]. rewrite !dl_diff by congruence. reflexivity. Qed.
+Lemma sumn_delta_l n (g : nat -> R) i : (i < n)%nat -> sumn n (fun k => dl i k * g k) = g i.
+Proof. intros Hi. rewrite <- (sumn_delta_r n g i Hi). apply sumn_ext. intros k _. rewrite dl_sym. ring. Qed.
+
+Lemma map_nth_seq {A} (l : list A) d : map (fun k => nth k l d) (seq 0 (length l)) = l.
+Proof.
+  apply (nth_ext _ _ d d); [rewrite map_length, seq_length; reflexivity|].
+  intros i Hi. rewrite map_length, seq_length in Hi. rewrite (nth_map_seq (fun k => nth k l d)) by assumption. reflexivity.
+Qed.
+
+Lemma perm_seq_facts n (perm : list nat) : Permutation perm (seq 0 n) ->
+  length perm = n /\ NoDup perm /\ (forall a, (a < n)%nat -> (nth a perm 0 < n)%nat).
+Proof.
+  intros P. assert (L : length perm = n) by (rewrite (Permutation_length P); apply seq_length).
+  split; [assumption|]. split.
+  - apply (Permutation_NoDup (Permutation_sym P)), seq_NoDup.
+  - intros a Ha. assert (I : In (nth a perm 0%nat) (seq 0 n)) by (apply (Permutation_in _ P), nth_In; lia).
+    apply in_seq in I. lia.
+Qed.
+
+Lemma sumn_perm n (perm : list nat) (g : nat -> R) : Permutation perm (seq 0 n) ->
+  sumn n (fun k => g (nth k perm 0%nat)) = sumn n g.
+Proof.
+  intros P. destruct (perm_seq_facts n perm P) as (L & _ & _). unfold sumn.
+  rewrite <- (map_map (fun k => nth k perm 0%nat) g). rewrite <- L at 1. rewrite map_nth_seq.
+  apply gd_nsum_perm, Permutation_map, P.
+Qed.
+
+Lemma ndot_cons (x y : R) a b : ndot (x :: a) (y :: b) = x * y + ndot a b.
+Proof. reflexivity. Qed.
+Lemma sumn_S n g : sumn (S n) g = g 0%nat + sumn n (fun k => g (S k)).
+Proof. unfold sumn. cbn [seq map]. rewrite nsum_cons, <- seq_shift, map_map. reflexivity. Qed.
+Lemma ndot_sumn n : forall (a b : list R), length a = n -> length b = n ->
+  ndot a b = sumn n (fun k => nth k a 0 * nth k b 0).
+Proof.
+  induction n as [|n IH]; intros [|x a] [|y b] Ha Hb; try discriminate.
+  - reflexivity.
+  - rewrite ndot_cons, sumn_S. cbn [nth]. f_equal. apply IH; [injection Ha|injection Hb]; auto.
+Qed.
+
+Lemma wfm_row n M i : wfm n M -> (i < n)%nat -> length (nth i M []) = n.
+Proof. intros [L F] Hi. rewrite Forall_forall in F. apply F, nth_In. lia. Qed.
+
+Lemma ent_mat_mul n A B i j : wfm n A -> wfm n B -> (i < n)%nat -> (j < n)%nat ->
+  ent (mat_mul A B) i j = sumn n (fun k => ent A i k * ent B k j).
+Proof.
+  intros WA WB Hi Hj. pose proof WA as [LA _]. pose proof WB as [LB _].
+  destruct B as [|b0 B']; [cbn in LB; lia|].
+  assert (Lb0 : length b0 = n) by (apply (wfm_row n (b0 :: B') 0 WB); lia).
+  unfold entry, mat_mul. rewrite (nth_map_in _ A i [] []) by lia. rewrite Lb0.
+  rewrite nth_map_seq by assumption.
+  rewrite (ndot_sumn n); [|apply wfm_row; assumption|unfold col; rewrite map_length; assumption].
+  apply sumn_ext. intros k Hk. f_equal. unfold col.
+  rewrite (nth_map_in _ (b0 :: B') k _ []) by lia. reflexivity.
+Qed.
+
+Lemma wfm_mat_mul n A B : wfm n A -> wfm n B -> wfm n (mat_mul A B).
+Proof.
+  intros [LA FA] WB. pose proof WB as [LB FB]. destruct B as [|b0 B'].
+  - cbn in LB. subst n. destruct A; [|discriminate]. split; [reflexivity|constructor].
+  - assert (Lb0 : length b0 = n) by (apply (wfm_row n (b0 :: B') 0 WB); cbn [length] in LB; lia).
+    unfold mat_mul. split; [rewrite map_length; assumption|].
+    apply Forall_forall. intros r Hr. apply in_map_iff in Hr. destruct Hr as (r0 & <- & _).
+    rewrite map_length, seq_length. assumption.
+Qed.
+
+Lemma mat_ext n A B : wfm n A -> wfm n B ->
+  (forall i j, (i < n)%nat -> (j < n)%nat -> ent A i j = ent B i j) -> A = B.
+Proof.
+  intros WA WB E. pose proof WA as [LA _]. pose proof WB as [LB _].
+  apply (nth_ext _ _ [] []); [congruence|]. intros i Hi. rewrite LA in Hi.
+  apply (nth_ext _ _ 0 0); [rewrite !(wfm_row n) by assumption; reflexivity|].
+  intros j Hj. rewrite (wfm_row n) in Hj by assumption. apply E; assumption.
+Qed.
+
+Lemma wfm_ident n : wfm n (@ident R NumR n).
+Proof.
+  unfold ident. split; [rewrite map_length, seq_length; reflexivity|].
+  apply Forall_forall. intros r Hr. apply in_map_iff in Hr. destruct Hr as (i & <- & _).
+  rewrite map_length, seq_length. reflexivity.
+Qed.
+Lemma ent_ident n i j : (i < n)%nat -> (j < n)%nat -> ent (ident n) i j = dl i j.
+Proof. intros Hi Hj. unfold entry, ident. rewrite (nth_map_seq _ n i) by assumption. rewrite nth_map_seq by assumption. reflexivity. Qed.
+
+Lemma mat_mul_assoc n A B C : wfm n A -> wfm n B -> wfm n C ->
+  mat_mul (mat_mul A B) C = mat_mul A (mat_mul B C).
+Proof.
+  intros WA WB WC. apply (mat_ext n); [repeat apply wfm_mat_mul; assumption..|].
+  intros i j Hi Hj.
+  rewrite (ent_mat_mul n) by (try apply wfm_mat_mul; assumption).
+  rewrite (ent_mat_mul n A) by (try apply wfm_mat_mul; assumption).
+  rewrite (sumn_ext n _ (fun k => sumn n (fun l => ent A i l * ent B l k * ent C k j))).
+  2:{ intros k Hk. rewrite (ent_mat_mul n) by assumption. unfold sumn. apply nsum_map_scal_r. }
+  rewrite (sumn_ext n (fun k => ent A i k * ent (mat_mul B C) k j) (fun l => sumn n (fun k => ent A i l * ent B l k * ent C k j))).
+  2:{ intros l Hl. rewrite (ent_mat_mul n) by assumption. unfold sumn. rewrite nsum_map_scal_l.
+      apply nsum_map_ext. intros k _. ring. }
+  unfold sumn. apply nsum_swap.
+Qed.
+
+Lemma mat_mul_ident_r n A : wfm n A -> mat_mul A (ident n) = A.
+Proof.
+  intros WA. apply (mat_ext n); [apply wfm_mat_mul; [assumption|apply wfm_ident]|assumption|].
+  intros i j Hi Hj. rewrite (ent_mat_mul n) by (try apply wfm_ident; assumption).
+  rewrite (sumn_ext n _ (fun k => ent A i k * dl k j)) by (intros k Hk; rewrite ent_ident by assumption; reflexivity).
+  apply sumn_delta_r. assumption.
+Qed.
+Lemma mat_mul_ident_l n A : wfm n A -> mat_mul (ident n) A = A.
+Proof.
+  intros WA. apply (mat_ext n); [apply wfm_mat_mul; [apply wfm_ident|assumption]|assumption|].
+  intros i j Hi Hj. rewrite (ent_mat_mul n) by (try apply wfm_ident; assumption).
+  rewrite (sumn_ext n _ (fun k => dl i k * ent A k j)) by (intros k Hk; rewrite ent_ident by assumption; reflexivity).
+  apply (sumn_delta_l n (fun k => ent A k j)). assumption.
+Qed.
+
+(** a right inverse and a left inverse of the same matrix coincide *)
+Lemma inverse_unique n A X Y : wfm n A -> wfm n X -> wfm n Y ->
+  mat_mul A X = ident n -> mat_mul Y A = ident n -> X = Y.
+Proof.
+  intros WA WX WY HX HY.
+  rewrite <- (mat_mul_ident_l n X WX), <- HY, (mat_mul_assoc n Y A X) by assumption.
+  rewrite HX. apply mat_mul_ident_r. assumption.
+Qed.
+
+(** *** re-listing rows and columns *)
+Lemma length_select (idx : list nat) (v : list R) : length (select idx v) = length idx.
+Proof. apply map_length. Qed.
+Lemma nth_select (idx : list nat) (v : list R) a : (a < length idx)%nat -> nth a (select idx v) 0 = nth (nth a idx 0%nat) v 0.
+Proof. intros Ha. unfold select. exact (nth_map_in (fun i => nth i v 0) idx a 0 0%nat Ha). Qed.
+Lemma wfm_sub_mat n (perm : list nat) M : length perm = n -> wfm n (sub_mat perm M).
+Proof.
+  intros L. unfold sub_mat. split; [rewrite map_length; assumption|].
+  apply Forall_forall. intros r Hr. apply in_map_iff in Hr. destruct Hr as (i & <- & _).
+  rewrite length_select. assumption.
+Qed.
+Lemma ent_sub_mat (perm : list nat) M a b : (a < length perm)%nat -> (b < length perm)%nat ->
+  ent (sub_mat perm M) a b = ent M (nth a perm 0%nat) (nth b perm 0%nat).
+Proof.
+  intros Ha Hb. unfold entry, sub_mat.
+  rewrite (nth_map_in (fun i => select perm (nth i M [])) perm a [] 0%nat) by assumption.
+  apply nth_select. assumption.
+Qed.
+
+Lemma sub_mat_mul n perm A B : wfm n A -> wfm n B -> Permutation perm (seq 0 n) ->
+  sub_mat perm (mat_mul A B) = mat_mul (sub_mat perm A) (sub_mat perm B).
+Proof.
+  intros WA WB P. destruct (perm_seq_facts n perm P) as (L & _ & Hlt).
+  apply (mat_ext n); [apply wfm_sub_mat; assumption|apply wfm_mat_mul; apply wfm_sub_mat; assumption|].
+  intros a b Ha Hb.
+  rewrite ent_sub_mat by lia. rewrite (ent_mat_mul n) by auto.
+  rewrite (ent_mat_mul n) by (try apply wfm_sub_mat; assumption).
+  rewrite (sumn_ext n (fun k => ent (sub_mat perm A) a k * ent (sub_mat perm B) k b)
+                      (fun k => (fun k' => ent A (nth a perm 0%nat) k' * ent B k' (nth b perm 0%nat)) (nth k perm 0%nat))).
+  2:{ intros k Hk. rewrite !ent_sub_mat by lia. reflexivity. }
+  symmetry. exact (sumn_perm n perm (fun k' => ent A (nth a perm 0%nat) k' * ent B k' (nth b perm 0%nat)) P).
+Qed.
+
+Lemma sub_mat_ident n perm : Permutation perm (seq 0 n) -> sub_mat perm (@ident R NumR n) = ident n.
+Proof.
+  intros P. destruct (perm_seq_facts n perm P) as (L & ND & Hlt).
+  apply (mat_ext n); [apply wfm_sub_mat; assumption|apply wfm_ident|].
+  intros a b Ha Hb. rewrite ent_sub_mat by lia. rewrite !ent_ident by auto.
+  destruct (Nat.eq_dec a b) as [->|Hn]; [rewrite !dl_same; reflexivity|].
+  rewrite (dl_diff a b Hn). apply dl_diff. intros E. apply Hn.
+  apply (proj1 (NoDup_nth perm 0%nat) ND); lia.
+Qed.
+
+Lemma qform_sumn n M v : wfm n M -> length v = n ->
+  qform M v = sumn n (fun i => nth i v 0 * sumn n (fun j => ent M i j * nth j v 0)).
+Proof.
+  intros WM Lv. pose proof WM as [LM _]. unfold qform, mat_vec.
+  rewrite (ndot_sumn n) by (rewrite ?map_length; assumption).
+  apply sumn_ext. intros i Hi. f_equal.
+  rewrite (nth_map_in _ M i _ []) by lia.
+  apply (ndot_sumn n); [apply wfm_row; assumption|assumption].
+Qed.
+
+Lemma qform_sub_mat n perm M v : wfm n M -> length v = n -> Permutation perm (seq 0 n) ->
+  qform (sub_mat perm M) (select perm v) = qform M v.
+Proof.
+  intros WM Lv P. destruct (perm_seq_facts n perm P) as (L & _ & Hlt).
+  rewrite (qform_sumn n) by (try apply wfm_sub_mat; rewrite ?length_select; assumption).
+  rewrite (qform_sumn n M v) by assumption.
+  rewrite <- (sumn_perm n perm (fun i => nth i v 0 * sumn n (fun j => ent M i j * nth j v 0)) P).
+  apply sumn_ext. intros a Ha. rewrite nth_select by lia. f_equal.
+  rewrite <- (sumn_perm n perm (fun j => ent M (nth a perm 0%nat) j * nth j v 0) P).
+  apply sumn_ext. intros b Hb. rewrite nth_select, ent_sub_mat by lia. reflexivity.
+Qed.
+
+Lemma trace_sumn n M : length M = n -> @trace R NumR M = sumn n (fun i => ent M i i).
+Proof. intros L. unfold trace, sumn. rewrite L. reflexivity. Qed.
+Lemma trace_sub_mat n perm M : wfm n M -> Permutation perm (seq 0 n) -> trace (sub_mat perm M) = trace M.
+Proof.
+  intros [LM _] P. destruct (perm_seq_facts n perm P) as (L & _ & _).
+  rewrite (trace_sumn n) by (unfold sub_mat; rewrite map_length; assumption).
+  rewrite (trace_sumn n M LM). rewrite <- (sumn_perm n perm (fun i => ent M i i) P).
+  apply sumn_ext. intros a Ha. apply ent_sub_mat; lia.
+Qed.
+
+(** *** the self-certifying inverse *)
+Definition is_inv (n : nat) (A Ai : list (list R)) : Prop :=
+  wfm n A /\ wfm n Ai /\ mat_mul A Ai = ident n /\ mat_mul Ai A = ident n.
+
+Lemma wf_matb_sound n (M : list (list R)) : wf_matb n M = true -> wfm n M.
+Proof.
+  unfold wf_matb. intros Hb. apply andb_true_iff in Hb. destruct Hb as [H1 H2].
+  apply Nat.eqb_eq in H1. split; [assumption|].
+  apply Forall_forall. intros r Hr. rewrite forallb_forall in H2. apply Nat.eqb_eq, H2, Hr.
+Qed.
+Lemma mat_eqb_sound n (A B : list (list R)) : mat_eqb n A B = true ->
+  forall i j, (i < n)%nat -> (j < n)%nat -> ent A i j = ent B i j.
+Proof.
+  unfold mat_eqb. intros Hb i j Hi Hj. rewrite forallb_forall in Hb.
+  specialize (Hb i ltac:(apply in_seq; lia)). rewrite forallb_forall in Hb.
+  specialize (Hb j ltac:(apply in_seq; lia)). numR. apply Reqb_true. exact Hb.
+Qed.
+Lemma inv_ok_sound (A Ai : list (list R)) : inv_ok A Ai = true -> is_inv (length A) A Ai.
+Proof.
+  unfold inv_ok. intros Hb.
+  apply andb_true_iff in Hb. destruct Hb as [Hb H4]. apply andb_true_iff in Hb. destruct Hb as [Hb H3].
+  apply andb_true_iff in Hb. destruct Hb as [H1 H2].
+  apply wf_matb_sound in H1. apply wf_matb_sound in H2.
+  repeat split; try (destruct H1, H2; assumption).
+  - apply (mat_ext (length A)); [apply wfm_mat_mul; assumption|apply wfm_ident|apply mat_eqb_sound; assumption].
+  - apply (mat_ext (length A)); [apply wfm_mat_mul; assumption|apply wfm_ident|apply mat_eqb_sound; assumption].
+Qed.
+Lemma mat_inv_v_sound (A Ai : list (list R)) : mat_inv_v A = Some Ai -> is_inv (length A) A Ai.
+Proof.
+  unfold mat_inv_v. destruct (mat_inv A) as [X|]; [|discriminate].
+  destruct (inv_ok A X) eqn:E; [|discriminate]. intros [= <-]. apply inv_ok_sound, E.
+Qed.
+
+Lemma is_inv_sub_mat n perm A Ai : Permutation perm (seq 0 n) -> is_inv n A Ai ->
+  is_inv n (sub_mat perm A) (sub_mat perm Ai).
+Proof.
+  intros P (WA & WI & H1 & H2). destruct (perm_seq_facts n perm P) as (L & _ & _).
+  repeat split; try (apply wfm_sub_mat; assumption); try (unfold sub_mat; rewrite map_length; assumption).
+  - rewrite <- (sub_mat_mul n) by assumption. rewrite H1. apply sub_mat_ident, P.
+  - rewrite <- (sub_mat_mul n) by assumption. rewrite H2. apply sub_mat_ident, P.
+Qed.
+
+(** whatever inverse is found for the re-listed matrix, it is the re-listed inverse *)
+Lemma mat_inv_v_sub_mat n perm A Ai Ai' : length A = n -> Permutation perm (seq 0 n) ->
+  mat_inv_v A = Some Ai -> mat_inv_v (sub_mat perm A) = Some Ai' -> Ai' = sub_mat perm Ai.
+Proof.
+  intros LA P E E'. destruct (perm_seq_facts n perm P) as (L & _ & _).
+  apply mat_inv_v_sound in E. rewrite LA in E.
+  apply mat_inv_v_sound in E'. unfold sub_mat at 1 in E'. rewrite map_length, L in E'.
+  destruct (is_inv_sub_mat n perm A Ai P E) as (W1 & W2 & R1 & R2).
+  destruct E' as (W1' & W2' & R1' & R2').
+  symmetry. apply (inverse_unique n (sub_mat perm A)); assumption.
+Qed.
+
+(** *** the statistics do not depend on the order in which the nested parameters are listed *)
+Lemma gim_sub_mat n perm Hm Jm G G' : wfm n Hm -> wfm n Jm -> Permutation perm (seq 0 n) ->
+  gim Hm Jm = Some G -> gim (sub_mat perm Hm) (sub_mat perm Jm) = Some G' -> G' = sub_mat perm G /\ wfm n G.
+Proof.
+  intros WH WJ P. unfold gim.
+  destruct (mat_inv_v Jm) as [Ji|] eqn:E; [|discriminate].
+  destruct (mat_inv_v (sub_mat perm Jm)) as [Ji'|] eqn:E'; [|discriminate].
+  intros [= <-] [= <-].
+  rewrite (mat_inv_v_sub_mat n perm Jm Ji Ji' (proj1 WJ) P E E').
+  apply mat_inv_v_sound in E. rewrite (proj1 WJ) in E. destruct E as (_ & WI & _ & _).
+  split; [|repeat apply wfm_mat_mul; assumption].
+  rewrite <- !(sub_mat_mul n) by (try apply wfm_mat_mul; assumption). reflexivity.
+Qed.
+
+Lemma wald_order_invariant n perm Hm Jm d w w' : wfm n Hm -> wfm n Jm -> length d = n -> Permutation perm (seq 0 n) ->
+  wald_stat Hm Jm d = Some w -> wald_stat (sub_mat perm Hm) (sub_mat perm Jm) (select perm d) = Some w' -> w' = w.
+Proof.
+  intros WH WJ Ld P. unfold wald_stat.
+  destruct (gim Hm Jm) as [G|] eqn:E; [|discriminate].
+  destruct (gim (sub_mat perm Hm) (sub_mat perm Jm)) as [G'|] eqn:E'; [|discriminate].
+  intros [= <-] [= <-].
+  destruct (gim_sub_mat n perm Hm Jm G G' WH WJ P E E') as [-> WG].
+  rewrite !(qform_sub_mat n) by assumption. reflexivity.
+Qed.
+
+Lemma qform_inv_order_invariant n perm M v a a' : wfm n M -> length v = n -> Permutation perm (seq 0 n) ->
+  qform_inv M v = Some a -> qform_inv (sub_mat perm M) (select perm v) = Some a' -> a' = a.
+Proof.
+  intros WM Lv P. unfold qform_inv.
+  destruct (mat_inv_v M) as [Mi|] eqn:E; [|discriminate].
+  destruct (mat_inv_v (sub_mat perm M)) as [Mi'|] eqn:E'; [|discriminate].
+  intros [= <-] [= <-].
+  rewrite (mat_inv_v_sub_mat n perm M Mi Mi' (proj1 WM) P E E').
+  apply mat_inv_v_sound in E. rewrite (proj1 WM) in E. destruct E as (_ & WI & _ & _).
+  apply (qform_sub_mat n); assumption.
+Qed.
+
+Lemma score_order_invariant n perm Hm Jm cU s s' : wfm n Hm -> wfm n Jm -> length cU = n -> Permutation perm (seq 0 n) ->
+  score_stat Hm Jm cU = Some s -> score_stat (sub_mat perm Hm) (sub_mat perm Jm) (select perm cU) = Some s' -> s' = s.
+Proof.
+  intros WH WJ Lc P. unfold score_stat.
+  destruct (qform_inv Jm cU) as [a|] eqn:Ea; [|discriminate].
+  destruct (qform_inv Hm cU) as [o|] eqn:Eo; [|discriminate].
+  destruct (qform_inv (sub_mat perm Jm) (select perm cU)) as [a'|] eqn:Ea'; [|discriminate].
+  destruct (qform_inv (sub_mat perm Hm) (select perm cU)) as [o'|] eqn:Eo'; [|discriminate].
+  intros [= <-] [= <-].
+  rewrite (qform_inv_order_invariant n perm Jm cU a a' WJ Lc P Ea Ea').
+  rewrite (qform_inv_order_invariant n perm Hm cU o o' WH Lc P Eo Eo'). reflexivity.
+Qed.
+
+Lemma lrt_order_invariant n perm Hm Jm a a' : wfm n Hm -> wfm n Jm -> Permutation perm (seq 0 n) ->
+  lrt_adjust Hm Jm = Some a -> lrt_adjust (sub_mat perm Hm) (sub_mat perm Jm) = Some a' -> a' = a.
+Proof.
+  intros WH WJ P. destruct (perm_seq_facts n perm P) as (L & _ & _). unfold lrt_adjust.
+  destruct (mat_inv_v Hm) as [Hi|] eqn:E; [|discriminate].
+  destruct (mat_inv_v (sub_mat perm Hm)) as [Hi'|] eqn:E'; [|discriminate].
+  intros [= <-] [= <-].
+  rewrite (mat_inv_v_sub_mat n perm Hm Hi Hi' (proj1 WH) P E E').
+  apply mat_inv_v_sound in E. rewrite (proj1 WH) in E. destruct E as (_ & WI & _ & _).
+  rewrite <- (sub_mat_mul n) by assumption.
+  rewrite (trace_sub_mat n) by (try apply wfm_mat_mul; assumption).
+  unfold sub_mat at 1. rewrite map_length, L, (proj1 WH). reflexivity.
+Qed.
+
+(** *** Wald_stat: the parameter difference follows the order of the index list *)
+Lemma nth_vsub (a b : list R) k : length a = length b -> nth k (vsub a b) 0 = nth k a 0 - nth k b 0.
+Proof.
+  revert b k. induction a as [|x a IH]; intros [|y b] k L; try discriminate.
+  - destruct k; cbn; numR; ring.
+  - destruct k; cbn [vsub combine map nth]; [reflexivity|]. apply IH. injection L; auto.
+Qed.
+Lemma length_vsub (a b : list R) : length a = length b -> length (vsub a b) = length a.
+Proof. intros L. unfold vsub. rewrite map_length, combine_length, L. apply Nat.min_id. Qed.
+Lemma select_vsub perm (a b : list R) : length a = length b ->
+  select perm (vsub a b) = vsub (select perm a) (select perm b).
+Proof.
+  intros L. apply (nth_ext _ _ 0 0).
+  - rewrite length_select, length_vsub, length_select by (rewrite !length_select; reflexivity). reflexivity.
+  - intros k Hk. rewrite length_select in Hk.
+    rewrite nth_select, nth_vsub, nth_vsub, !nth_select by (rewrite ?length_select; auto). reflexivity.
+Qed.
+Lemma select_select n perm (idx : list nat) (v : list R) : length idx = n -> Permutation perm (seq 0 n) ->
+  select (map (fun k => nth k idx 0%nat) perm) v = select perm (select idx v).
+Proof.
+  intros Li P. destruct (perm_seq_facts n perm P) as (L & _ & Hlt).
+  unfold select at 1 2. rewrite map_map. apply map_ext_in. intros k Hk.
+  assert (Hkn : (k < n)%nat) by (apply (Permutation_in _ P) in Hk; apply in_seq in Hk; lia).
+  symmetry. apply nth_select. lia.
+Qed.
+
+(** full_params given as the values of the nested parameters, in the order of the index list: listing indices and values
+    in another order (consistently) re-lists the difference vector; full_params given as the complete parameter list:
+    the index list alone decides *)
+Lemma wald_diff_values_perm n perm theta (p0 : list R) idx vals : length idx = n -> length vals = n ->
+  n <> length p0 -> n <> S (length p0) -> Permutation perm (seq 0 n) ->
+  wald_diff theta p0 (map (fun k => nth k idx 0%nat) perm) (select perm vals)
+  = option_map (select perm) (wald_diff theta p0 idx vals) /\ wald_diff theta p0 idx vals <> None.
+Proof.
+  intros Li Lv N1 N2 P. destruct (perm_seq_facts n perm P) as (L & _ & _).
+  unfold wald_diff.
+  assert (E1 : forall (x : list R), length x = n ->
+            (if Nat.eqb (length x) (length p0) then x ++ [0] else x) = x).
+  { intros x Lx. destruct (Nat.eqb_spec (length x) (length p0)); [lia|reflexivity]. }
+  set (p0' := match theta with Some th => p0 ++ [th] | None => p0 end).
+  assert (Lp : length p0' = length p0 \/ length p0' = S (length p0)).
+  { unfold p0'. destruct theta; [right; rewrite app_length; cbn; lia|left; reflexivity]. }
+  assert (F : forall x : list R, length x = n ->
+            match theta with Some th => if Nat.eqb (length x) (length p0) then x ++ [th] else x | None => x end = x).
+  { intros x Lx. destruct theta; [|reflexivity]. destruct (Nat.eqb_spec (length x) (length p0)); [lia|reflexivity]. }
+  rewrite (F vals Lv), (F (select perm vals)) by (rewrite length_select; assumption).
+  assert (G : forall x : list R, length x = n -> Nat.eqb (length x) (length p0') = false).
+  { intros x Lx. apply Nat.eqb_neq. lia. }
+  rewrite (G vals Lv), (G (select perm vals)) by (rewrite length_select; assumption).
+  rewrite length_select, map_length, L, Lv, Li, Nat.eqb_refl. cbn [option_map]. split; [|discriminate].
+  f_equal. rewrite (select_select n) by assumption.
+  symmetry. apply select_vsub. rewrite length_select. congruence.
+Qed.
+
+Lemma wald_diff_full_perm n perm theta (p0 : list R) idx full : length idx = n -> length full = length p0 ->
+  Permutation perm (seq 0 n) ->
+  wald_diff theta p0 (map (fun k => nth k idx 0%nat) perm) full
+  = option_map (select perm) (wald_diff theta p0 idx full) /\ wald_diff theta p0 idx full <> None.
+Proof.
+  intros Li Lf P. destruct (perm_seq_facts n perm P) as (L & _ & _).
+  unfold wald_diff.
+  set (p0' := match theta with Some th => p0 ++ [th] | None => p0 end).
+  set (fp := match theta with Some th => if Nat.eqb (length full) (length p0) then full ++ [th] else full | None => full end).
+  assert (Lfp : length fp = length p0').
+  { unfold fp, p0'. destruct theta; [|assumption]. rewrite Lf, Nat.eqb_refl, !app_length. lia. }
+  rewrite Lfp, Nat.eqb_refl. rewrite !length_select, map_length, L, Li, Nat.eqb_refl. cbn [option_map].
+  split; [|discriminate]. f_equal. rewrite !(select_select n) by assumption.
+  symmetry. apply select_vsub. rewrite !length_select. reflexivity.
+Qed.
+
+Lemma length_wald_diff theta (p0 : list R) idx fp d : wald_diff theta p0 idx fp = Some d -> length d = length idx.
+Proof.
+  unfold wald_diff. match goal with |- context [if Nat.eqb (length ?x) (length idx) then _ else _] => set (fp' := x) end.
+  destruct (Nat.eqb_spec (length fp') (length idx)) as [E|]; [|discriminate].
+  intros [= <-]. rewrite length_vsub by (rewrite length_select; assumption). assumption.
+Qed.
+
+(** the statement about the caller's lists *)
+Lemma wald_nested_order_irrelevant n perm theta (p0 : list R) idx fp fp' Hm Jm d d' w w' :
+  wfm n Hm -> wfm n Jm -> length idx = n -> Permutation perm (seq 0 n) ->
+  (length fp = length p0 /\ fp' = fp) \/ (length fp = n /\ n <> length p0 /\ n <> S (length p0) /\ fp' = select perm fp) ->
+  wald_diff theta p0 idx fp = Some d -> wald_stat Hm Jm d = Some w ->
+  wald_diff theta p0 (map (fun k => nth k idx 0%nat) perm) fp' = Some d' ->
+  wald_stat (sub_mat perm Hm) (sub_mat perm Jm) d' = Some w' -> w' = w.
+Proof.
+  intros WH WJ Li P Hfp Ed Ew Ed' Ew'.
+  assert (Ld : length d = n) by (rewrite (length_wald_diff _ _ _ _ _ Ed); assumption).
+  assert (Hd' : d' = select perm d).
+  { destruct Hfp as [[Lf ->]|(Lf & N1 & N2 & ->)].
+    - destruct (wald_diff_full_perm n perm theta p0 idx fp Li Lf P) as [E _].
+      rewrite E, Ed in Ed'. cbn in Ed'. congruence.
+    - destruct (wald_diff_values_perm n perm theta p0 idx fp Li Lf N1 N2 P) as [E _].
+      rewrite E, Ed in Ed'. cbn in Ed'. congruence. }
+  subst d'. apply (wald_order_invariant n perm Hm Jm d); assumption.
+Qed.
+
+(** *** a nested index listed twice: numpy's indexed assignment lets the last value win, so diff_func ignores the
+    value at the earlier position; row and column of H and J at that position vanish and nothing can be inverted *)
+Lemma upd_upd_same (p : list R) i v w : upd (upd p i v) i w = upd p i w.
+Proof. revert i; induction p as [|x t IH]; intros [|i]; cbn; auto. f_equal. apply IH. Qed.
+Lemma upd_upd_comm (p : list R) i j v w : i <> j -> upd (upd p i v) j w = upd (upd p j w) i v.
+Proof. revert i j; induction p as [|x t IH]; intros [|i] [|j] Hn; cbn; auto; try congruence. f_equal. apply IH. congruence. Qed.
+Lemma upd_nth_same (p : list R) i : upd p i (nth i p 0) = p.
+Proof. revert i; induction p as [|x t IH]; intros [|i]; cbn; auto. f_equal. apply IH. Qed.
+
+Lemma scatter_fold_shadowed (l : list (nat * R)) full i v : In i (map fst l) ->
+  fold_left (fun acc iq => upd acc (fst iq) (snd iq)) l (upd full i v)
+  = fold_left (fun acc iq => upd acc (fst iq) (snd iq)) l full.
+Proof.
+  revert full. induction l as [|[j w] l IH]; intros full Hi; [destruct Hi|].
+  cbn [fold_left fst snd]. destruct (Nat.eq_dec j i) as [->|Hn].
+  - rewrite upd_upd_same. reflexivity.
+  - rewrite (upd_upd_comm full i j v w) by congruence. apply IH.
+    destruct Hi as [E|Hi]; [cbn in E; congruence|assumption].
+Qed.
+Lemma map_fst_combine {A B} (a : list A) (b : list B) : map fst (combine a b) = firstn (length b) a.
+Proof. revert b; induction a as [|x a IH]; intros [|y b]; cbn; auto. f_equal. apply IH. Qed.
+Lemma scatter_repeated (full : list R) i idx v q : In i (firstn (length q) idx) ->
+  scatter full (i :: idx) (v :: q) = scatter full idx q.
+Proof. intros Hi. unfold scatter. cbn [combine fold_left fst snd]. apply scatter_fold_shadowed. rewrite map_fst_combine. assumption. Qed.
+
+Section Indep.
+  Variables (f : list R -> R) (p0 : list R) (k : nat).
+  Hypothesis Hind : forall p x, length p = length p0 -> f (upd p k x) = f p.
+
+  Lemma indep1 x : f (upd p0 k x) = f p0.
+  Proof. apply Hind. reflexivity. Qed.
+  Lemma indep2a j x y : f (upd (upd p0 k x) j y) = f (upd p0 j y).
+  Proof.
+    destruct (Nat.eq_dec k j) as [<-|Hn]; [rewrite upd_upd_same, !indep1; reflexivity|].
+    rewrite upd_upd_comm by assumption. apply Hind. apply length_upd.
+  Qed.
+  Lemma indep2b j x y : f (upd (upd p0 j y) k x) = f (upd p0 j y).
+  Proof. apply Hind. apply length_upd. Qed.
+
+  Lemma hess_elem_indep_l jj eps os : nth k eps 0 <> 0 -> nth jj eps 0 <> 0 -> hess_elem f (f p0) p0 k jj eps os = 0.
+  Proof.
+    intros Hk Hj. unfold hess_elem. destruct (Nat.eqb k jj).
+    - destruct (_ && _); rewrite !indep1; gd_unfold; field; assumption.
+    - destruct (_ && _); rewrite !indep2a; rewrite ?upd_nth_same; gd_unfold; field; auto.
+  Qed.
+  Lemma hess_elem_indep_r ii eps os : nth k eps 0 <> 0 -> nth ii eps 0 <> 0 -> hess_elem f (f p0) p0 ii k eps os = 0.
+  Proof.
+    intros Hk Hi. unfold hess_elem. destruct (Nat.eqb_spec ii k) as [->|Hn].
+    - destruct (_ && _); rewrite !indep1; gd_unfold; field; assumption.
+    - destruct (_ && _); rewrite !indep2b; rewrite ?upd_nth_same; gd_unfold; field; auto.
+  Qed.
+  Lemma grad_elem_indep eps os : nth k eps 0 <> 0 -> grad_elem f p0 k eps os = 0.
+  Proof. intros Hk. unfold grad_elem. destruct (_ && _); rewrite !indep1; rewrite ?upd_nth_same; gd_unfold; field; assumption. Qed.
+End Indep.
+
+Lemma get_hess_indep_row (f : list R -> R) (p0 : list R) (eps : R) k c :
+  (forall p x, length p = length p0 -> f (upd p k x) = f p) -> eps <> 0 ->
+  (k < length p0)%nat -> (c < length p0)%nat ->
+  ent (get_hess f p0 eps) k c = 0 /\ ent (get_hess f p0 eps) c k = 0.
+Proof.
+  intros Hind He Hk Hc. unfold entry, get_hess.
+  assert (Hs : forall i, (i < length p0)%nat -> nth i (map fst (map (step_rule eps) p0)) 0 <> 0).
+  { intros i Hi. rewrite (proj1 (nth_steps eps p0 i Hi)). apply step_rule_nonzero, He. }
+  rewrite !(nth_map_seq _ (length p0)) by assumption. numR.
+  split.
+  - destruct (Nat.le_ge_cases k c) as [L|L].
+    + rewrite Nat.min_l, Nat.max_r by assumption. apply hess_elem_indep_l; auto.
+    + rewrite Nat.min_r, Nat.max_l by assumption. apply hess_elem_indep_r; auto.
+  - destruct (Nat.le_ge_cases c k) as [L|L].
+    + rewrite Nat.min_l, Nat.max_r by assumption. apply hess_elem_indep_r; auto.
+    + rewrite Nat.min_r, Nat.max_l by assumption. apply hess_elem_indep_l; auto.
+Qed.
+
+Lemma get_grad_indep (f : list R -> R) (p0 : list R) (eps : R) k :
+  (forall p x, length p = length p0 -> f (upd p k x) = f p) -> eps <> 0 -> (k < length p0)%nat ->
+  nth k (get_grad f p0 eps) 0 = 0.
+Proof.
+  intros Hind He Hk. unfold get_grad. rewrite (nth_map_seq _ (length p0)) by assumption.
+  apply grad_elem_indep; [assumption|]. rewrite (proj1 (nth_steps eps p0 k Hk)). apply step_rule_nonzero, He.
+Qed.
+
+(** a matrix with a vanishing row has no (certified) inverse *)
+Lemma zero_row_no_inverse n (M : list (list R)) k : length M = n -> (k < n)%nat ->
+  (forall c, (c < n)%nat -> ent M k c = 0) -> mat_inv_v M = None.
+Proof.
+  intros LM Hk Hz. destruct (mat_inv_v M) as [Mi|] eqn:E; [|reflexivity]. exfalso.
+  apply mat_inv_v_sound in E. rewrite LM in E. destruct E as (WM & WI & R1 & _).
+  assert (E : ent (mat_mul M Mi) k k = ent (ident n) k k) by (rewrite R1; reflexivity).
+  rewrite (ent_mat_mul n), ent_ident, dl_same in E by assumption.
+  rewrite (sumn_ext n _ (fun _ => 0)) in E by (intros c Hc; rewrite Hz by assumption; ring).
+  unfold sumn in E. rewrite nsum_map_zero in E. lra.
+Qed.
+
+(** the log-likelihood of diff_func when the first listed index occurs again later in the list *)
+Lemma repeated_index_indep (Bs : list (list R)) aug (full : list R) i idx (dt : @pdata R) (p0 : list R) :
+  In i (firstn (length p0 - 1) idx) -> (0 < length p0)%nat ->
+  forall p x, length p = length p0 ->
+  pois_ll (model_mean Bs aug (Some (full, i :: idx))) dt (upd p 0 x) = pois_ll (model_mean Bs aug (Some (full, i :: idx))) dt p.
+Proof.
+  intros Hi Hl p x Lp. destruct p as [|v q]; [reflexivity|]. cbn [upd].
+  assert (Lq : length q = (length p0 - 1)%nat) by (cbn [length] in Lp; lia).
+  unfold pois_ll, model_mean. cbn [fst snd].
+  rewrite !scatter_repeated by (rewrite Lq; assumption). reflexivity.
+Qed.
+
+Lemma repeated_nested_index_singular (Bs : list (list R)) aug (full : list R) i idx (data : @pdata R) (boots : list (@pdata R))
+      (p0 : list R) (eps : R) :
+  In i (firstn (length p0 - 1) idx) -> (0 < length p0)%nat -> eps <> 0 -> boots <> [] ->
+  let HJc := godambe_HJc (fun dt => pois_ll (model_mean Bs aug (Some (full, i :: idx))) dt) p0 eps data boots in
+  (forall c, (c < length p0)%nat -> ent (fst (fst HJc)) 0 c = 0 /\ ent (snd (fst HJc)) 0 c = 0) /\
+  mat_inv_v (fst (fst HJc)) = None /\ mat_inv_v (snd (fst HJc)) = None.
+Proof.
+  intros Hi Hl He Hb HJc.
+  assert (Z : forall c, (c < length p0)%nat -> ent (fst (fst HJc)) 0 c = 0 /\ ent (snd (fst HJc)) 0 c = 0).
+  { intros c Hc. unfold HJc, godambe_HJc. cbn [fst snd]. split.
+    - unfold entry. assert (L : length (get_hess (pois_ll (model_mean Bs aug (Some (full, i :: idx))) data) p0 eps) = length p0)
+        by (unfold get_hess; rewrite map_length, seq_length; reflexivity).
+      rewrite (nth_map_in (map nopp) _ 0 [] []) by lia.
+      destruct (get_hess_indep_row (pois_ll (model_mean Bs aug (Some (full, i :: idx))) data) p0 eps 0 c
+                  (repeated_index_indep Bs aug full i idx data p0 Hi Hl) He Hl Hc) as [Z0 _].
+      unfold entry in Z0.
+      assert (Lr : (c < length (nth 0 (get_hess (pois_ll (model_mean Bs aug (Some (full, i :: idx))) data) p0 eps) []))%nat).
+      { unfold get_hess. rewrite (nth_map_seq _ (length p0)) by assumption. rewrite map_length, seq_length. assumption. }
+      rewrite (nth_map_in nopp _ c 0 0) by assumption. numR. rewrite Z0. ring.
+    - unfold entry, J_mat. rewrite (nth_map_seq _ (length p0)) by assumption. rewrite nth_map_seq by assumption.
+      unfold J_entry. rewrite map_map.
+      rewrite (nsum_map_ext _ (fun _ => 0)).
+      + rewrite nsum_map_zero. numR. unfold Rdiv. ring.
+      + intros bt _. rewrite get_grad_indep; [numR; ring| |assumption|assumption].
+        apply repeated_index_indep; assumption. }
+  split; [assumption|]. split.
+  - apply (zero_row_no_inverse (length p0) _ 0); [|assumption|intros c Hc; apply (Z c Hc)].
+    unfold HJc, godambe_HJc. cbn [fst snd]. unfold get_hess. rewrite !map_length, seq_length. reflexivity.
+  - apply (zero_row_no_inverse (length p0) _ 0); [|assumption|intros c Hc; apply (Z c Hc)].
+    unfold HJc, godambe_HJc, J_mat. cbn [fst snd]. rewrite map_length, seq_length. reflexivity.
+Qed.
